@@ -416,7 +416,12 @@ func c13Oracle(name string, args []cty.Value, zeroStep bool) []string {
 		}
 	case "sethaselement":
 		if len(args) == 2 {
-			e, _ := args[1].UnmarkDeep()
+			// the call protocol unmarks (and thereby REBUILDS any set inside) only an argument that carries a
+			// mark: an unmarked needle reaches Value.Hash as it is, members of a colliding bucket in their own order
+			e := args[1]
+			if e.ContainsMarked() {
+				e, _ = e.UnmarkDeep()
+			}
 			o.hash(e)
 		}
 	case "setunion", "setintersection", "setsubtract", "setsymmetricdifference":
